@@ -486,6 +486,8 @@ string format_t::truncate(const unistring&  ustr,
   const std::size_t len = ustr.width();
   if (width == 0 || len <= width)
     return ustr.extract();
+  if (width <= 2)               // no room for the ".." marker
+    return ustr.extract_by_width(0, width);
 
   std::ostringstream buf;
 
